@@ -919,7 +919,7 @@ def run(ctx):
             if cs:
                 plans.append(DyingPlan(ctx, spec, kind, k, cs, random.Random(rnd.random())))
     cmds = repo_commands()
-    nf = 3 if ctx.quick else 12
+    nf = 3 if ctx.quick else 24
     fuzz = [fuzz_program(ctx, "c15-fuzz-%d" % k, random.Random(rnd.random()), cmds, 400 if ctx.quick else 1200) for k in range(nf)]
     programs = [p.b.program() for p in plans] + [f.program() for f in fuzz]
     nsteps = sum(len(p["steps"]) for p in programs)
